@@ -189,6 +189,49 @@ def points(names, n=4):
 # }}}
 
 
+def ac_width(t):
+    """largest number of operands of a sum / product after flattening nested ones (the matcher's
+    cost is exponential in it: a free variable may take any subset of the operands)"""
+    k = t[0]
+    if k in ("var", "int", "float"):
+        return 1
+    if k == "call":
+        cs = [t[1]] + list(t[2]) + list((t[3] if len(t) > 3 else {}).values())
+    elif k == "sub":
+        cs = [t[1]] + list(t[2])
+    else:
+        cs = t[1:]
+    best = max([ac_width(c) for c in cs] or [1])
+    if k in ("sum", "prod"):
+        def flat(u):
+            return sum(flat(c) for c in u[1:]) if u[0] == k else 1
+        best = max(best, flat(t))
+    return best
+
+
+class _Timeout(BaseException):
+    pass
+
+
+def _call_with_alarm(fn, seconds):
+    """run fn(); a call that takes longer (AC matching is exponential; the property says nothing about
+    time) raises _Timeout.  Uses SIGALRM when available, restored afterwards."""
+    import signal
+    import threading
+    if not hasattr(signal, "SIGALRM") or threading.current_thread() is not threading.main_thread():
+        return fn()
+
+    def handler(signum, frame):
+        raise _Timeout()
+    old = signal.signal(signal.SIGALRM, handler)
+    signal.setitimer(signal.ITIMER_REAL, seconds)
+    try:
+        return fn()
+    finally:
+        signal.setitimer(signal.ITIMER_REAL, 0)
+        signal.signal(signal.SIGALRM, old)
+
+
 def _viol(clause, detail):
     return {"clause": clause, "detail": detail}
 
@@ -236,7 +279,11 @@ def check(inp):
     with warnings.catch_warnings():
         warnings.simplefilter("ignore")
         try:
-            result = match(args[0], args[1], list(free) if free is not None else None, **kwargs)
+            result = _call_with_alarm(
+                lambda: match(args[0], args[1], list(free) if free is not None else None, **kwargs),
+                inp.get("timeout_s", 2.0))
+        except _Timeout:
+            return {"outcome": "timeout", "viols": []}
         except ValueError:
             return {"outcome": "ValueError", "viols": []}
         except RecursionError:
@@ -446,6 +493,8 @@ def bounded(payload):
     rng = random.Random(seed)
     n_random = budget.get("random_pairs", 4000 if tier == "quick" else 60000)
     max_fail = budget.get("max_failures", 20)
+    max_t_width = budget.get("max_template_ac_width", 4)
+    max_e_width = budget.get("max_target_ac_width", 6)
     active = {}
     for e in payload.get("known", []):
         fp = e.get("fingerprint")
@@ -455,7 +504,7 @@ def bounded(payload):
     evals = 0
     distinct = set()
     failures = []
-    outcomes = {"match": 0, "ValueError": 0, "raise": 0, "skipped": 0}
+    outcomes = {"match": 0, "ValueError": 0, "raise": 0, "timeout": 0, "skipped": 0, "too_wide": 0}
     decided_points = 0
     suppressed = {}
     classes = {}
@@ -464,6 +513,9 @@ def bounded(payload):
 
     def run(inp):
         nonlocal evals, decided_points
+        if ac_width(inp["template"]) > max_t_width or ac_width(inp["target"]) > max_e_width:
+            outcomes["too_wide"] += 1
+            return
         r = check(inp)
         if r is None:
             outcomes["skipped"] += 1
@@ -532,7 +584,8 @@ def bounded(payload):
                     "that is not free); 8%% passed as strings.  Non-trivial = match returned a substitution (then "
                     "checked at 4 rational points under hash-table function symbols); distinct = distinct inputs"
                     % (len(templates), len(targets)),
-            "bound": "template depth <= 3, sums/products of <= 3 children, calls with <= 2 positional and <= 2 keyword "
-                     "arguments, quotients, integer powers, subscripts",
+            "bound": "template depth <= 3; flattened sums/products of <= %d (template) / <= %d (target) operands; "
+                     "each match call cut off after 2 s (counted as timeout, no verdict); calls with <= 2 positional and <= 2 keyword "
+                     "arguments, quotients, integer powers, subscripts" % (max_t_width, max_e_width),
             "samples": samples[:4], "failures": failures[:max_fail], "known_hits": known_hits,
             "parts": parts, "exhaustive": False}
